@@ -81,7 +81,16 @@ def decMulRound10Rat (a b : Rat) : Int :=
   let d := r - (f : Rat)
   if d < 1/2 then f else if d > 1/2 then f + 1 else if f % 2 = 0 then f else f + 1
 
+/-- `round(Decimal(a) / Decimal(b))` under `prec = 10`: quotient rounded to 10 significant digits, then to the nearest
+integer, both half-even -/
+def decQuotRound10Rat (a b : Rat) : Int :=
+  let r := roundSig10Rat (a / b)
+  let f := r.floor
+  let d := r - (f : Rat)
+  if d < 1/2 then f else if d > 1/2 then f + 1 else if f % 2 = 0 then f else f + 1
+
 namespace R
+def decQuotRound10 (a b : R) : Int := decQuotRound10Rat a b
 def decQuot10 (a b : R) : Int := decQuot10Rat a b
 def decMulRound10 (a b : R) : Int := decMulRound10Rat a b
 end R
